@@ -866,6 +866,11 @@ def gen_C09(r, n, thorough=False):
                 c.add('convert.impl_TryFrom_%s_for_%s.try_from %s' % (ref, ty, w2(t)), kind='try', ty=ty, t=t)
             # the num_traits routes must agree with TryFrom / From (they forward to them)
             c.add('num_integration.impl_ToPrimitive_for_TwoFloat.to_%s %s' % (ty, w2(t)), kind='toprim', ty=ty, t=t)
+            # the same call through the trait (a deleted override silently falls back to num_traits' provided body) and through
+            # the integer-typed NumCast route, observed on the implementation only
+            c.add('tr.ToPrimitive.to_%s %s' % (ty, w2(t)), kind='toprim', ty=ty, t=t, impl_only=True)
+            if ty in ('i64', 'u64', 'i128', 'u128', 'i32', 'u8'):
+                c.add('tr.NumCast.%s %s' % (ty, w2(t)), kind='toprim', ty=ty, t=t, impl_only=True)
             if ty in ('i64', 'u64'):
                 c.add('num_integration.impl_ToPrimitive_for_TwoFloat.to_%ssize %s' % (ty[0], w2(t)), kind='toprim', ty=ty, t=t)
         for v in vals[:max(50, n)]:
@@ -1564,6 +1569,8 @@ def gen_C12(r, n):
     for k in CONSTS:
         c.add('consts.' + k, kind='const', name=k)
         c.add(NUMT % ('FloatConst', k), kind='const', name=k)
+        if k in ('TAU', 'LOG10_2', 'LOG2_10'):     # FloatConst methods with provided defaults in num_traits: observed through the trait
+            c.add('tr.FloatConst.%s' % k, kind='const', name=k, impl_only=True)
     for k in ('MAX', 'MIN', 'MIN_POSITIVE', 'NAN', 'INFINITY', 'NEG_INFINITY', 'EPSILON'):
         c.add('TwoFloat.' + k, kind='assoc', name=k)
     for _ in range(n):
